@@ -109,8 +109,10 @@ def bindings():
                 if o.get("live") and o.get("elems"): o["elems"][0] += 1; return True
     def cont_ledger(e):
         if e.get("e") == "end": e["allocs"] = e.get("allocs", 0) + 1; return True
-    def kern(e):
-        if e.get("e") == "kthread" and e.get("changed"): e["changed"][0] += 1; return True
+    def kern(e):         # (a thread writing another in-range cell is only "drift" for TraceKernel: the final buffer and the guards decide)
+        if e.get("e") == "kend" and e.get("out") and isinstance(e["out"][0], int): e["out"][0] += 1; return True
+    def kern_guard(e):
+        if e.get("e") == "kthread": e["guard_ok"] = False; return True
     def simd_tok(e):
         el = e.get("res", {}).get("simd", {}).get("elems")
         if el: el[0] = "x00000001" if len(el[0]) == 9 else "x0000000000000001"; return True
@@ -125,7 +127,8 @@ def bindings():
         if t is not None and not t.get("fixed_dim"): t["fixed_dim"] = [e["res"].get("dim", 1) + 1]; return True
     ok &= corrupt_and_validate("TraceContainers(element)", "TraceContainers", g("C19", "cont_vector.events.0.ndjson"), "TraceContainers_vector_2", lambda evs, kb: first_nonempty(evs, kb, cont, "first element of a live object + 1"))
     ok &= corrupt_and_validate("TraceContainers(ledger)", "TraceContainers", g("C19", "cont_vector.events.0.ndjson"), "TraceContainers_vector_2", lambda evs, kb: first_nonempty(evs, kb, cont_ledger, "one allocation left at the end of the history"))
-    ok &= corrupt_and_validate("TraceKernel", "TraceKernel", g("C13", "kern*.events.0.ndjson"), None, lambda evs, kb: first_nonempty(evs, kb, kern, "a thread reports a write to the neighbouring cell"))
+    ok &= corrupt_and_validate("TraceKernel(final)", "TraceKernel", g("C13", "kern*.events.0.ndjson"), None, lambda evs, kb: first_nonempty(evs, kb, kern, "first element of the final output buffer + 1"))
+    ok &= corrupt_and_validate("TraceKernel(guard)", "TraceKernel", g("C13", "kern*.events.0.ndjson"), None, lambda evs, kb: first_nonempty(evs, kb, kern_guard, "a thread reports a changed guard cell"))
     ok &= corrupt_and_validate("TraceSimd(value)", "TraceSimd", g("C12", "simd.events.0.ndjson"), None, lambda evs, kb: first_nonempty(evs, kb, simd_tok, "first SIMD result element replaced"))
     ok &= corrupt_and_validate("TraceSimd(access)", "TraceSimd", g("C12", "simd.events.0.ndjson"), None, lambda evs, kb: first_nonempty(evs, kb, simd_acc, "a packed access moved to the end of its buffer"))
     ok &= corrupt_and_validate("TraceStatic(value)", "TraceStatic", g("C11", "static0.events.0.ndjson"), None, lambda evs, kb: first_nonempty(evs, kb, stat, "first element of the evaluated result + 1"))
